@@ -231,6 +231,12 @@ func c02Histories(tier string) [][]ops.Op {
 		M, {K: "CancelGenesisFuse", A: 1}, M, M, {K: "Told", A: 1, B: 2, V: 4}, M,
 		{K: "Call", S: "delegate", A: 0, B: 2}, M, {K: "Told", A: 0, B: 1, V: 2}, M, M,
 	})
+	// a ledger key that exists at genesis, is deleted and created again later (user 2's fused total: own genesis fusion
+	// cancelled, then user 1 fuses for user 2): historical views below the deletion must keep showing the old value at
+	// every later frontier, and a block acknowledging the momentum before the re-creation is executed against them
+	hs = append(hs, []ops.Op{
+		{K: "CancelGenesisFuse", A: 1}, M, M, {K: "Call", S: "fuse", A: 0, B: 1, V: 50}, M, M, {K: "Told", A: 1, B: 2, V: 4}, M,
+	})
 	// enumerated: every sequence of d operations from the alphabet, each followed by the confirming momentums
 	alpha := []ops.Op{
 		{K: "T", A: 0, B: 1, V: 5},
@@ -314,7 +320,7 @@ func c02Units(tier string) [][3]int {
 	var u [][3]int
 	for hi := range c02Histories(tier) {
 		parts := 1
-		if hi < 4 {
+		if hi < 5 {
 			parts = 1
 		}
 		for p := 0; p < parts; p++ {
@@ -359,7 +365,7 @@ func runC02(c *xs.Ctx, r *xs.Result) {
 		}
 		t0 := time.Now()
 		hb := b
-		if hi < 4 && !c.Thorough() {
+		if hi < 5 && !c.Thorough() {
 			// the long scripted histories (6-7 momentums, a dozen gossipable blocks) get a smaller schedule space in the
 			// quick tier: batches of at most 2, one gossiped block, one restart, one warm-up, no re-delivery
 			hb = c02bounds{maxBatch: 2, gossipWin: 1, maxWarm: 1, maxRestart: 1, maxGossip: 1, maxRedeliv: 0}
